@@ -11,7 +11,7 @@ def check(rep):
     PR.rule_compiles(ctx, rid="C12.SHAPE-COMPILES", strict=False)
     PR.rule_key(ctx)
     PR.rule_key_order_independent(ctx, rid="C12.ALPHABETICAL")
-    PR.rule_renderers(ctx, rid="C12.SALT-EXACT", kinds=("str",))
+    PR.rule_renderers(ctx, rid="C12.SALT-EXACT", kinds=("str",), only_tags=("salt",))
     PR.rule_coercions(ctx, rid="C12.SALT-VALUE", fields={"salt", "splitting_fields"})
     ER.rule_call_forwards(ctx, rid="C12.CALL-FORWARDS")
     ER.rule_installed_function(ctx, rid="C12.INSTALLED-FUNCTION", strict=False, facets=("installed",))
